@@ -29,6 +29,7 @@ def main():
         env = dict(os.environ)
         env["CARGO_NET_OFFLINE"] = "true"
         env["CARGO_TARGET_DIR"] = os.path.join(scratch, "target")
+        env["LLVM_PROFILE_FILE"] = os.path.join(scratch, "build-%p.profraw")   # build scripts are instrumented too
         env["RUSTFLAGS"] = "-C instrument-coverage --cfg suiron_verif --check-cfg cfg(suiron_verif)"
         hdir = os.path.join(VERIF, "harness")
         p = subprocess.run(["cargo", "+nightly", "build", "--offline", "--quiet"], cwd=hdir, env=env)
@@ -71,7 +72,7 @@ def main():
                 if data.count(b"\x02B\n") == done: break
         with concurrent.futures.ThreadPoolExecutor(14) as ex:
             list(ex.map(run, jobs))
-        raws = glob.glob(os.path.join(scratch, "*.profraw"))
+        raws = glob.glob(os.path.join(scratch, "*.cases.*.profraw"))
         prof = os.path.join(scratch, "all.profdata")
         lst = os.path.join(scratch, "raws.txt")
         open(lst, "w").write("\n".join(raws) + "\n")
